@@ -854,8 +854,8 @@ var c10Names = []string{"x", "x-1", "ax", "x.y", "xzy", "x1", "app", "x"}
 var c10NamePats = []string{"x", "x-1", "ax", "x.y", "xzy", "x.*", ".*", "x|ax", "x-1|ax", "[a-z]+", "x?", "(x|ax)-1", "x.", "^x", "x$", "a(", "x+", "", "", "x", "[ax]+", "x\\.y", "x[", ".+-1"}
 var c10Kinds = [][2]string{{"apps/v1", "Deployment"}, {"apps/v1", "StatefulSet"}, {"v1", "Pod"}, {"v1", "ConfigMap"}, {"batch/v1", "CronJob"}, {"example.com/v1", "MyKind"}, {"v1", "Namespace"}, {"apiextensions.k8s.io/v1", "CustomResourceDefinition"}, {"apps/v1", "ReplicaSet"}, {"example.com/v1beta1", "Deployment"}}
 var c10Namespaces = []string{"", "", "default", "ns", "ns-1", "ans"}
-var c10Images = []string{"x", "x:1", "x-1:1", "ax:2", "x.y:3", "xzy:1", "xzy", "reg:5000/x", "reg:5000/x:1", "reg:5000/x@sha256:abc", "x@sha256:abc", "x:1@sha256:abc", "docker.io/lib/x:1", "x:", "x@", "/x:1", "x.y", "x:1.2-rc_{a}", "x@sha512:abc", "y:1", "x:1:2", "app:v1", "reg/x.y:1"}
-var c10ImgEntryNames = []string{"x", "x", "x-1", "ax", "x.y", "xzy", "reg:5000/x", "docker.io/lib/x", "x.*", "a(", "x|y", "[a-z]+", "x+", "^x", "", "x$", "y", "app", "x:1", "reg/x.y", ".", "x?"}
+var c10Images = []string{"x:5000/app:1.0", "x:5000/x", "reg:5000/reg", "x:5000/x@sha256:abc", "x", "x:1", "x-1:1", "ax:2", "x.y:3", "xzy:1", "xzy", "reg:5000/x", "reg:5000/x:1", "reg:5000/x@sha256:abc", "x@sha256:abc", "x:1@sha256:abc", "docker.io/lib/x:1", "x:", "x@", "/x:1", "x.y", "x:1.2-rc_{a}", "x@sha512:abc", "y:1", "x:1:2", "app:v1", "reg/x.y:1"}
+var c10ImgEntryNames = []string{"reg", "x", "x", "x-1", "ax", "x.y", "xzy", "reg:5000/x", "docker.io/lib/x", "x.*", "a(", "x|y", "[a-z]+", "x+", "^x", "", "x$", "y", "app", "x:1", "reg/x.y", ".", "x?"}
 var c10LabelKeys = []string{"app", "tier", "x"}
 var c10LabelVals = []string{"x", "x-1", "ax", "web"}
 var c10LabelSels = []string{"", "", "", "app=x", "app==x", "app!=x", "app", "!app", "app=x,tier=web", "tier=web", "x", "app=ax", "app = x", "app in (x)", "app=x,"}
@@ -877,7 +877,8 @@ type c10Res struct {
 	Conts, Inits                      []c10Cont
 	ContsRaw                          string // replaces the containers list by raw YAML (odd shapes)
 	Prev                              [][3]string
-	Extra                             string // extra top-level YAML
+	Extra                             string      // extra top-level YAML
+	Data                              [][2]string `json:"Data,omitempty"` // ConfigMap data (default: k: v)
 }
 
 func (r c10Res) contPath() string {
@@ -946,7 +947,14 @@ func (r c10Res) yaml() string {
 	switch r.contPath() {
 	case "none":
 		if r.Kind == "ConfigMap" {
-			b.WriteString("data:\n  k: v\n")
+			if len(r.Data) > 0 {
+				b.WriteString("data:\n")
+				for _, kv := range r.Data {
+					fmt.Fprintf(&b, "  %s: %s\n", kv[0], kv[1])
+				}
+			} else {
+				b.WriteString("data:\n  k: v\n")
+			}
 		}
 	case "pod":
 		if r.Replicas != "" || hasPod {
@@ -1622,6 +1630,80 @@ func c10PathsFor(r *Rng, x c10Res, target bool) []string {
 	return out
 }
 
+// c10GenSharedSource: replacement 1 copies a mapping or a list (whole data, metadata.labels, a
+// containers list) from one resource into the same field of two or three others; replacement 2 then
+// writes a scalar into a child of exactly one of the copies. With value semantics only that copy changes.
+func c10GenSharedSource(r *Rng) ([]c10Res, []c10Repl) {
+	pool := []string{"x", "x-1", "ax", "x.y", "xzy", "x1", "app", "web", "api"}
+	for i := len(pool) - 1; i > 0; i-- {
+		j := r.Intn(i + 1)
+		pool[i], pool[j] = pool[j], pool[i]
+	}
+	nt := 2 + r.Intn(2)
+	names := pool[:nt+1] // names[0] is the source
+	var res []c10Res
+	var path, child string
+	variant := r.Intn(3)
+	switch variant {
+	case 0: // whole data of a ConfigMap
+		path, child = "data", "data.endpoint"
+		for i, n := range names {
+			x := c10Res{APIVersion: "v1", Kind: "ConfigMap", Name: n, Labels: [][2]string{{"app", "cfg"}}}
+			if i == 0 {
+				x.Data = [][2]string{{"endpoint", "e0"}, {"mode", "m0"}}
+			} else {
+				x.Data = [][2]string{{"old", "o" + strconv.Itoa(i)}}
+			}
+			res = append(res, x)
+		}
+	case 1: // metadata.labels
+		path, child = "metadata.labels", "metadata.labels.app"
+		kinds := [][2]string{{"apps/v1", "Deployment"}, {"v1", "ConfigMap"}, {"apps/v1", "StatefulSet"}}
+		k := kinds[r.Intn(len(kinds))]
+		for i, n := range names {
+			x := c10Res{APIVersion: k[0], Kind: k[1], Name: n, Labels: [][2]string{{"app", "a" + strconv.Itoa(i)}}}
+			if i == 0 {
+				x.Labels = append(x.Labels, [2]string{"tier", "web"})
+			}
+			res = append(res, x)
+		}
+	default: // a containers list
+		path = "spec.template.spec.containers"
+		cn := c10PickN(r, []string{"main", "web", "db"})
+		child = path + ".[name=" + cn + "].image"
+		for i, n := range names {
+			x := c10Res{APIVersion: "apps/v1", Kind: "Deployment", Name: n, Labels: [][2]string{{"app", "d"}}}
+			if i == 0 {
+				x.Conts = []c10Cont{{Name: cn, Image: "img:1"}, {Name: "side", Image: "side:2"}}
+			} else {
+				x.Conts = []c10Cont{{Name: "old" + strconv.Itoa(i), Image: "o:" + strconv.Itoa(i)}}
+			}
+			res = append(res, x)
+		}
+	}
+	src := res[0]
+	r1 := c10Repl{Source: &c10Source{c10Id: c10Id{Kind: src.Kind, Name: src.Name}, FieldPath: path}}
+	if r.Chance(50) {
+		// one target selector over the kind, the source itself rejected
+		r1.Targets = []c10Target{{Select: &c10Sel{c10Id: c10Id{Kind: src.Kind}}, Reject: []c10Sel{{c10Id: c10Id{Name: src.Name}}}, FieldPaths: []string{path}}}
+	} else {
+		for _, t := range res[1:] {
+			tg := c10Target{Select: &c10Sel{c10Id: c10Id{Kind: t.Kind, Name: t.Name}}, FieldPaths: []string{path}}
+			if r.Chance(30) {
+				tg.Options = &c10Opts{Create: true}
+			}
+			r1.Targets = append(r1.Targets, tg)
+		}
+	}
+	one := res[1+r.Intn(nt)]
+	r2 := c10Repl{Source: &c10Source{c10Id: c10Id{Kind: src.Kind, Name: src.Name}, FieldPath: "metadata.name"},
+		Targets: []c10Target{{Select: &c10Sel{c10Id: c10Id{Kind: one.Kind, Name: one.Name}}, FieldPaths: []string{child}}}}
+	if r.Chance(25) {
+		r2.Targets[0].Options = &c10Opts{Delimiter: ":", Index: 0}
+	}
+	return res, []c10Repl{r1, r2}
+}
+
 func c10GenRepl(r *Rng, l []c10Res) c10Repl {
 	if r.Chance(12) || len(l) == 0 {
 		return c10GenReplRandom(r, l)
@@ -2162,6 +2244,13 @@ func runC10(run *Run, rng *Rng, tier string) error {
 		rps := []c10Repl{c10GenRepl(g, l)}
 		if g.Chance(15) {
 			rps = append(rps, c10GenRepl(g, l))
+		}
+		if g.Chance(9) {
+			// a mapping / list source copied to several targets, then a write into a child of ONE copy
+			l, rps = c10GenSharedSource(g)
+			if g.Chance(30) {
+				l = append(l, c10GenResList(g, 1, false)...)
+			}
 		}
 		cases = append(cases, c10Case{Kind: "repl", Repls: rps, Docs: c10Texts(l)})
 	}
